@@ -397,13 +397,13 @@ func c03U(hex string) string { return "\\" + "u" + hex }
 // escaped surrogate pair and raw, and characters that mean something in JSight
 // outside strings.
 var c03Atoms = []string{"a", `\"`, `\\`, `\/`, `\b`, `\f`, `\n`, `\r`, `\t`, c03U("0000"), c03U("00e9"), "\xc3\xa9", c03U("d83d") + c03U("de00"), "\xf0\x9f\x98\x80",
-	"/", "//", "#", "@a", "{", ":"}
+	"/", "//", "#", "@a", "{", ":", "u003c"} // u003c: behind an escaped backslash it reads like the HTML-safe escape of '<'
 
 // Further atoms used by the random generator only (all of them legal JSON string content).
 var c03MoreAtoms = []string{"b", "n", "u", "t", "Z", "0", "9", " ", "  ", ",", "]", "}", "[", "*/", "/*", "-", ".", "'", "|", "$", "%", "<", "&", "=", "?", "~", "\x7f",
 	"\xe2\x82\xac", c03U("20ac"), c03U("20AC"), c03U("00E9"), c03U("0022"), c03U("005c"), c03U("005C"), c03U("002f"), c03U("000a"), c03U("000D"), c03U("001f"), c03U("007f"), c03U("ffff"),
 	c03U("D834") + c03U("DD1E"), "\xf0\x9d\x84\x9e", "\xe2\x80\xa8", "\xc2\xa0", "\xef\xbf\xbd",
-	"true", "null", "1e5", "@", `\\n`, `\\\"`, "# c", "// c", "{}", "/*", "\\\\" + "u0041"}
+	"true", "null", "1e5", "@", `\\n`, `\\\"`, "# c", "// c", "{}", "/*", "\\\\" + "u0041", "\\\\" + "u003e", "\\\\" + "u0026", "\\\\" + "u2028", ">", "u0026", "\\\\" + "n", "\\\\" + "\\\""}
 
 func c03GenAtoms(rng *rand.Rand) []string {
 	n := rng.IntN(5)
